@@ -1,7 +1,7 @@
 #!/bin/bash
 # check_seed_wt.sh <id-lower> <k> <CHECK> [tier]: triage only - apply patch k in the agent's own worktree and run a check against
 # that worktree (VERIF_REPO), so that /repo stays free.  The archived result always comes from tools/archive_seed.py against /repo.
-id=$1; k=$2; ID=$3; tier=${4:-quick}; wt=${WTPREFIX:-/tmp/w2_}$id
+id=$1; k=$2; ID=$3; tier=${4:-quick}; wt=${WTPREFIX:-/tmp/w3_}$id
 cd $wt || exit 2
 git checkout -q -- .
 git apply _seed/patch$k.diff || { echo "APPLY FAILED"; exit 2; }
